@@ -261,6 +261,10 @@ impl ShakeSizeParser {
     }
 
     fn next(&mut self) -> u16 {
+        #[cfg(feature = "verif")]
+        if let Some(scripted) = crate::verif::next_shake() {
+            return scripted;
+        }
         self.reader.read(&mut self.buffer);
         u16::from_be_bytes(self.buffer)
     }
